@@ -10,6 +10,40 @@ use std::sync::atomic::{AtomicUsize, Ordering as AO};
 use std::sync::Arc;
 
 pub type K = u8;
+
+thread_local! {
+    /// 0: keys hash like u8; 1: all keys hash alike (every two keys collide)
+    pub static COLLIDE: std::cell::Cell<u8> = const { std::cell::Cell::new(0) };
+}
+pub fn set_collide(c: u8) {
+    COLLIDE.with(|x| x.set(c));
+}
+pub fn collide() -> u8 {
+    COLLIDE.with(|x| x.get())
+}
+
+/// The key type the library sees. It is `u8` in everything but its `Hash`:
+/// in collide mode every key hashes alike, so that code which decides identity
+/// by hash instead of `Eq` (the library only requires `K: Hash + Eq`, and Hash
+/// need not be injective) is exposed. The harness speaks `K = u8` everywhere;
+/// the flavour adapter wraps and unwraps.
+#[derive(Clone, Copy, Debug, PartialEq, Eq, PartialOrd, Ord, Serialize, Deserialize)]
+#[serde(transparent)]
+pub struct HK(pub u8);
+impl std::hash::Hash for HK {
+    fn hash<H: std::hash::Hasher>(&self, h: &mut H) {
+        if collide() == 0 {
+            self.0.hash(h)
+        } else {
+            0u8.hash(h)
+        }
+    }
+}
+impl std::fmt::Display for HK {
+    fn fmt(&self, f: &mut std::fmt::Formatter<'_>) -> std::fmt::Result {
+        self.0.fmt(f)
+    }
+}
 pub type E = i8;
 /// An edge as reported by the library: (source key, target key, value).
 pub type Arc3 = (K, K, E);
@@ -423,16 +457,16 @@ pub trait Fl: 'static + Sized {
 
 macro_rules! common_items {
     ($m:ident) => {
-        type Node = gdsl::$m::Node<K, Val, E>;
-        type Edge = gdsl::$m::Edge<K, Val, E>;
-        type Path = PathBox<gdsl::$m::Node<K, Val, E>>;
-        type Graph = gdsl::$m::Graph<K, Val, E>;
+        type Node = gdsl::$m::Node<HK, Val, E>;
+        type Edge = gdsl::$m::Edge<HK, Val, E>;
+        type Path = PathBox<gdsl::$m::Node<HK, Val, E>>;
+        type Graph = gdsl::$m::Graph<HK, Val, E>;
 
         fn node(k: K, v: Val) -> Self::Node {
-            gdsl::$m::Node::new(k, v)
+            gdsl::$m::Node::new(HK(k), v)
         }
         fn key(n: &Self::Node) -> K {
-            *n.key()
+            n.key().0
         }
         fn pval(n: &Self::Node) -> i8 {
             n.value().p
@@ -448,7 +482,7 @@ macro_rules! common_items {
             a.try_connect(b, e).map_err(errk)
         }
         fn disconnect(a: &Self::Node, k: K) -> Result<E, ErrK> {
-            a.disconnect(&k).map_err(errk)
+            a.disconnect(&HK(k)).map_err(errk)
         }
         fn isolate(a: &Self::Node) {
             a.isolate()
@@ -465,7 +499,7 @@ macro_rules! common_items {
             (u, v, x)
         }
         fn edge_accessors(e: &Self::Edge) -> (K, K, E) {
-            (*e.source().key(), *e.target().key(), *e.value())
+            (e.source().key().0, e.target().key().0, *e.value())
         }
         fn edge_reverse(e: &Self::Edge) -> Self::Edge {
             e.reverse()
@@ -477,7 +511,7 @@ macro_rules! common_items {
             n.is_orphan()
         }
         fn is_connected(n: &Self::Node, k: K) -> bool {
-            n.is_connected(&k)
+            n.is_connected(&HK(k))
         }
         fn sizeof(n: &Self::Node) -> usize {
             n.sizeof()
@@ -519,16 +553,16 @@ macro_rules! common_items {
             g.insert(n)
         }
         fn g_remove(g: &mut Self::Graph, k: K) -> Option<Self::Node> {
-            g.remove(&k)
+            g.remove(&HK(k))
         }
         fn g_get(g: &Self::Graph, k: K) -> Option<Self::Node> {
-            g.get(&k)
+            g.get(&HK(k))
         }
         fn g_index(g: &Self::Graph, k: K) -> Self::Node {
-            g[k].clone()
+            g[HK(k)].clone()
         }
         fn g_contains(g: &Self::Graph, k: K) -> bool {
-            g.contains(&k)
+            g.contains(&HK(k))
         }
         fn g_len(g: &Self::Graph) -> usize {
             g.len()
@@ -540,7 +574,7 @@ macro_rules! common_items {
             g.to_vec()
         }
         fn g_iter(g: &Self::Graph) -> Vec<(K, Self::Node)> {
-            g.iter().map(|(k, n)| (*k, n.clone())).collect()
+            g.iter().map(|(k, n)| (k.0, n.clone())).collect()
         }
         fn g_orphans(g: &Self::Graph) -> Vec<Self::Node> {
             g.orphans()
@@ -576,20 +610,20 @@ macro_rules! make_pathbox {
         let p2 = p.clone();
         PathBox {
             obs: Box::new(move || {
-                let a3 = |e: &Self::Edge| (*e.0.key(), *e.1.key(), e.2);
+                let a3 = |e: &Self::Edge| (e.0.key().0, e.1.key().0, e.2);
                 let nodes: Vec<Self::Node> = p.iter_nodes().collect();
                 PathObs {
                     edges: p.edges.iter().map(a3).collect(),
                     len: p.len(),
-                    iter_nodes: nodes.iter().map(|n| *n.key()).collect(),
-                    to_vec_nodes: p.to_vec_nodes().iter().map(|n| *n.key()).collect(),
+                    iter_nodes: nodes.iter().map(|n| n.key().0).collect(),
+                    to_vec_nodes: p.to_vec_nodes().iter().map(|n| n.key().0).collect(),
                     iter_edges: p.iter_edges().map(|e| a3(&e)).collect(),
                     to_vec_edges: p.to_vec_edges().iter().map(a3).collect(),
                     indexed: (0..p.edges.len()).map(|i| a3(&p[i])).collect(),
                     first_edge: p.first_edge().map(a3),
                     last_edge: p.last_edge().map(a3),
-                    first_node: p.first_node().map(|n| *n.key()),
-                    last_node: p.last_node().map(|n| *n.key()),
+                    first_node: p.first_node().map(|n| n.key().0),
+                    last_node: p.last_node().map(|n| n.key().0),
                     node_vals: nodes.iter().map(|n| n.value().p).collect(),
                 }
             }),
@@ -677,9 +711,9 @@ macro_rules! search_impl {
                 (cbc.borrow_mut())(e);
             };
             let mut fi = |e: &Self::Edge| (cbc.borrow_mut())(e);
-            let t: K = cfg.target.unwrap_or(0);
-            let kv = |n: &Self::Node| (*n.key(), n.value().p);
-            let a3 = |e: &Self::Edge| (*e.0.key(), *e.1.key(), e.2);
+            let t: HK = HK(cfg.target.unwrap_or(0));
+            let kv = |n: &Self::Node| (n.key().0, n.value().p);
+            let a3 = |e: &Self::Edge| (e.0.key().0, e.1.key().0, e.2);
             macro_rules! finish_search {
                 ($builder:expr) => {
                     with_methods!($builder, [], cfg, t, fe, fi, $tr, yes, |b| match cfg.res {
@@ -750,17 +784,22 @@ macro_rules! search_impl {
                 (cbc.borrow_mut())(e);
             };
             let mut fi = |e: &Self::Edge| (cbc.borrow_mut())(e);
-            let t: K = cfg.target.unwrap_or(0);
-            let kv = |n: &Self::Node| (*n.key(), n.value().p);
-            let a3 = |e: &Self::Edge| (*e.0.key(), *e.1.key(), e.2);
+            let t: HK = HK(cfg.target.unwrap_or(0));
+            let kv = |n: &Self::Node| (n.key().0, n.value().p);
+            let a3 = |e: &Self::Edge| (e.0.key().0, e.1.key().0, e.2);
             macro_rules! twice_search {
                 ($builder:expr) => {
                     with_methods!($builder, [], cfg, t, fe, fi, $tr, yes, |b| {
-                        assert!(cfg.res == ResK::Path && second == ResK::Path, "harness: reuse of a search needs search_path twice");
+                        assert!(cfg.res == ResK::Path, "harness: only search_path leaves a search object usable");
                         let r1 = b.search_path().map(|p| make_pathbox!(p));
                         between();
-                        let r2 = b.search_path().map(|p| make_pathbox!(p));
-                        (SRes::Path(r1.as_ref().map(Self::path_obs)), SRes::Path(r2.as_ref().map(Self::path_obs)))
+                        let r2 = match second {
+                            ResK::Path => SRes::Path(b.search_path().map(|p| make_pathbox!(p)).as_ref().map(Self::path_obs)),
+                            ResK::Cycle => SRes::Path(b.search_cycle().map(|p| make_pathbox!(p)).as_ref().map(Self::path_obs)),
+                            ResK::Search => SRes::Node(b.search().as_ref().map(kv)),
+                            _ => panic!("harness: searches offer search / search_path / search_cycle"),
+                        };
+                        (SRes::Path(r1.as_ref().map(Self::path_obs)), r2)
                     })
                 };
             }
@@ -806,7 +845,7 @@ macro_rules! search_impl {
                 (cbc.borrow_mut())(e);
             };
             let mut fi = |e: &Self::Edge| (cbc.borrow_mut())(e);
-            let t: K = cfg.target.unwrap_or(0);
+            let t: HK = HK(cfg.target.unwrap_or(0));
             macro_rules! finish_path {
                 ($builder:expr) => {
                     with_methods!($builder, [], cfg, t, fe, fi, $tr, yes, |b| match cfg.res {
@@ -966,17 +1005,17 @@ macro_rules! directed_flavor {
                 Some(n.is_leaf())
             }
             fn find_out(n: &Self::Node, k: K) -> Option<Self::Node> {
-                n.find_outbound(&k)
+                n.find_outbound(&HK(k))
             }
             fn find_in(n: &Self::Node, k: K) -> Option<Option<Self::Node>> {
-                Some(n.find_inbound(&k))
+                Some(n.find_inbound(&HK(k)))
             }
             fn g_with_capacity(c: usize) -> Option<Self::Graph> {
                 let f: &dyn Fn(usize) -> Option<Self::Graph> = &$with_cap;
                 f(c)
             }
             fn g_index_ref(g: &Self::Graph, k: K) -> Option<Self::Node> {
-                Some(g[&k].clone())
+                Some(g[&HK(k)].clone())
             }
             fn g_roots(g: &Self::Graph) -> Option<Vec<Self::Node>> {
                 Some(g.roots())
@@ -995,8 +1034,8 @@ macro_rules! directed_flavor {
             ) -> Option<String> {
                 Some(g.to_dot_with_attr(
                     &|_g| gattr(),
-                    &|n| nattr(*n.key()),
-                    &|u, v, e| eattr(*u.key(), *v.key(), *e),
+                    &|n| nattr(n.key().0),
+                    &|u, v, e| eattr(u.key().0, v.key().0, *e),
                 ))
             }
             fn g_sizeof(g: &Self::Graph) -> Option<usize> {
@@ -1042,7 +1081,7 @@ macro_rules! undirected_flavor {
                 None
             }
             fn find_out(n: &Self::Node, k: K) -> Option<Self::Node> {
-                n.find_adjacent(&k)
+                n.find_adjacent(&HK(k))
             }
             fn find_in(_n: &Self::Node, _k: K) -> Option<Option<Self::Node>> {
                 None
@@ -1094,8 +1133,8 @@ undirected_flavor!(
     false,
     |g, gattr, nattr, eattr| Some(g.to_dot_with_attr(
         &|_g| gattr(),
-        &|n| nattr(*n.key()),
-        &|u, v, e| eattr(*u.key(), *v.key(), *e),
+        &|n| nattr(n.key().0),
+        &|u, v, e| eattr(u.key().0, v.key().0, *e),
     )),
     |g| Some(g.sizeof())
 );
